@@ -33,7 +33,9 @@ func runK2srv(r *rng, n int) {
 		for j := 0; j < k && lost == 0; j++ {
 			tag++
 			var f []byte
-			switch r.intn(7) {
+			switch r.intn(9) {
+			case 7, 8: // Tflush of an idle tag: answered by a frame without a body (Rflush)
+				f = rawFrame(108, tag, le16(uint16(r.intn(1000))))
 			case 0:
 				f = rawFrame(24, tag, cat(le32(7777), le64(0x7ff))) // Tgetattr, unbound fid
 			case 1:
